@@ -93,7 +93,7 @@ def run_property(prop, tier, seed):
     t0 = time.time()
     spec = props.PROPS[prop]
     # replay files are rewritten by every run
-    rd = os.path.join(VERIF, 'replays')
+    rd = os.path.join(core.OUT, 'replays')
     if os.path.isdir(rd):
         for fn in os.listdir(rd):
             if fn.startswith(prop + '_'):
